@@ -26,8 +26,8 @@ func senToken(t *rapid.T) string {
 }
 
 type senGen struct {
-	t   *rapid.T
-	ext bool // parser extensions used (outside sen.md)
+	t        *rapid.T
+	ext      bool // parser extensions used (outside sen.md)
 	allowExt bool
 }
 
@@ -145,7 +145,8 @@ func (g *senGen) value(b *strings.Builder, depth int) {
 	}
 }
 
-// SENDoc draws a SEN document (or, one time in four, a near-valid mutation of one). inSpec
+// SENDoc draws a valid SEN document (the property speaks of agreement "on SEN input", so no
+// near-valid mutations are drawn for the SEN front-ends). inSpec
 // reports whether it stays inside sen.md (no '+' concatenation, no /* */ comments), which is
 // the domain on which the SEN tokenizer is compared with the SEN parser.
 func SENDoc(t *rapid.T, depth int) (doc []byte, inSpec bool) {
@@ -165,12 +166,5 @@ func SENDoc(t *rapid.T, depth int) (doc []byte, inSpec bool) {
 	g.ows(&b)
 	doc = []byte(b.String())
 	inSpec = !g.ext
-	if sim.Intn(t, 4, "senmut") == 3 {
-		doc = Mutate(t, doc)
-		// a mutation may introduce parser-extension syntax ('+' concatenation, /* */, token functions)
-		if strings.ContainsAny(string(doc), "+(") || strings.Contains(string(doc), "/*") {
-			inSpec = false
-		}
-	}
 	return doc, inSpec
 }
